@@ -1970,6 +1970,9 @@ class GitPreviewTree(PreviewTree, GitTree):
         possible_extras.update(self._transform._new_contents)
         possible_extras.update(self._transform._removed_id)
         for trans_id in possible_extras:
+            if self._transform.final_kind(trans_id) is None:
+                # nothing is left at this path, so there is nothing extra
+                continue
             if not self._transform.final_is_versioned(trans_id):
                 yield self._final_paths._determine_path(trans_id)
 
